@@ -9,7 +9,9 @@ def main(tier):
     v = Verdict("C14", tier)
     ev = {}
     res, scens = scenarios_from_writer("Writer.scen.cfg", "c14-scen")
-    chosen = pick(scens, 40 if tier == "quick" else 400, seed() + 9)
+    # a second family whose pieces make consecutive flushes exactly one (scaled) compression block apart
+    res2, scens2 = scenarios_from_writer("Writer.flush.cfg", "c14-flush")
+    chosen = pick(scens, 24 if tier == "quick" else 300, seed() + 9) + pick(scens2, 24 if tier == "quick" else 300, seed() + 9)
     jobs = []
     sid = 0
     levels = [5, 0, 11] if tier == "quick" else list(range(12))
